@@ -622,11 +622,19 @@ func (re *Regexp) GroupNumberFromName(name string) int {
 	}
 
 	// convert to an int if it looks like a number
+	if name == "" {
+		// not a group name (the digit loop below would read it as 0)
+		return -1
+	}
 	result := 0
 	for i := 0; i < len(name); i++ {
 		ch := name[i]
 
 		if ch > '9' || ch < '0' {
+			return -1
+		}
+		if result > re.capsize {
+			// already out of range; stop before the value can wrap around
 			return -1
 		}
 
